@@ -43,6 +43,13 @@ type Spec struct {
 	Budget func(tier string) time.Duration
 	// HangIsViolation: whether a per-case timeout is a property violation (default true).
 	HangNotViolation bool
+	// DistinctCounter names a counter that holds an exact count of distinct non-trivial
+	// cases measured by the check itself (used by enumerating checks where hashing every
+	// case into the shape set would be wasteful); it is added to the shape-set size.
+	DistinctCounter string
+	// EvalCounter likewise names a counter of executions performed inside cases (a
+	// "case" of an enumerating check is a block of many executions).
+	EvalCounter string
 	// Procs is GOMAXPROCS for each worker process (default 2; sequential rigs gain
 	// nothing from more and 16 workers x 16 Ps thrash the scheduler).
 	Procs int
@@ -605,8 +612,8 @@ func parentMain(spec *Spec, tier string, seed int64) int {
 
 	// evidence
 	cov := map[string]interface{}{
-		"evaluations":         int64(cases),
-		"distinct_nontrivial": len(shapes),
+		"evaluations":         int64(cases) + p.Counters[spec.EvalCounter],
+		"distinct_nontrivial": int64(len(shapes)) + p.Counters[spec.DistinctCounter],
 		"rule":                spec.Rule,
 		"samples":             samples,
 		"counters":            p.Counters,
